@@ -186,7 +186,7 @@ theorem numLoop_token (pre ds : List Char) (c : Char) (rest : List Char) (fuel l
 
 /-- at the end of the text -/
 theorem numLoop_end (s : List Char) (fuel : Nat) : numLoop s s.length (fuel+1) s.length 0 = (s.length, 0) := by
-  have := numLoop_digits [] s [] 0 (fuel+1) s.length (by simp) (by simp [digStep]) (by simp) (by simp) (Or.inl (by simp))
+  have := numLoop_digits [] s [] 0 (fuel+1) s.length (by simp) (by simp) (by simp) (by simp) (Or.inl (by simp))
   simpa using this
 
 /-! ### what `tpstr` / `tostr` print -/
